@@ -3,8 +3,10 @@ package main
 import (
 	"crypto/sha1"
 	"encoding/binary"
+	"fmt"
 	"io"
 	"net"
+	"os"
 	"sync"
 	"sync/atomic"
 	"time"
@@ -59,7 +61,14 @@ type server struct {
 }
 
 func newServer(clk *clock, log *hookLogger, script []directive) (*server, error) {
-	ln, err := net.Listen("tcp", "127.0.0.1:0")
+	// Every collector stand-in gets its own loopback address (127.a.b.c): scripts that refuse
+	// connections close and re-open the listener on the same port, and with many scenarios in
+	// flight a port that is free for a moment must not be handed to another scenario's listener
+	// (a foreign client would connect and deliver its frames here).
+	ln, err := net.Listen("tcp", uniqueLoopback()+":0")
+	if err != nil {
+		ln, err = net.Listen("tcp", "127.0.0.1:0")
+	}
 	if err != nil {
 		return nil, err
 	}
@@ -69,6 +78,14 @@ func newServer(clk *clock, log *hookLogger, script []directive) (*server, error)
 		atomic.StoreInt32(&s.scriptEnd, 1)
 	}
 	return s, nil
+}
+
+var loopbackCounter uint32
+
+func uniqueLoopback() string {
+	n := atomic.AddUint32(&loopbackCounter, 1)
+	a := 1 + (uint32(os.Getpid())+n>>16)%120 // never 127.0.x.x
+	return fmt.Sprintf("127.%d.%d.%d", a, (n>>8)&255, 1+n%250)
 }
 
 func (s *server) poke() {
